@@ -17,11 +17,15 @@ pub open spec fn last_is_lc(ch: Seq<&SyntaxNode>) -> bool { ch.len() > 0 && ch.l
 
 /// `tree_wf(n)`: n belongs to an error-free tree produced by typst_syntax::parse.  Uninterpreted; the facts used are the axioms below.
 pub uninterp spec fn tree_wf(n: &SyntaxNode) -> bool;
-/// PF0: children of a well-formed node are well formed
+/// the root of the parsed document (it has no parent)
+pub uninterp spec fn is_doc_root(n: &SyntaxNode) -> bool;
+/// a node that has a parent in an error-free tree
+pub open spec fn child_wf(n: &SyntaxNode) -> bool { tree_wf(n) && !is_doc_root(n) }
+/// PF0: children of a well-formed node are well formed (and, having a parent, are not the document root)
 #[verifier::external_body]
 pub proof fn pf_children(n: &SyntaxNode)
     requires tree_wf(n),
-    ensures forall|j: int| 0 <= j < n.children_s().len() ==> tree_wf(#[trigger] n.children_s()[j]),
+    ensures forall|j: int| 0 <= j < n.children_s().len() ==> tree_wf(#[trigger] n.children_s()[j]) && !is_doc_root(n.children_s()[j]),
 {}
 /// PF1: a line comment ends at a line break, so inside any node it is followed by a whitespace sibling containing that
 /// line break; only markup (document end) can end with a line comment.  A leaf whose text starts with `//` is a LineComment.
